@@ -312,4 +312,52 @@ theorem c02_chain_order :
     KG.Gen.C02.proxyChain.idxOf "WithAuthentication" < KG.Gen.C02.proxyChain.length := by
   decide
 
+/-! ## non-vacuity (byte strings spelled out; evaluated by the kernel) -/
+
+/-- `authorization: Bearer client`, `IMPERSONATE-user: bob`, `impersonate-GROUP: dev`, `Impersonate-Extra-a%2fb: v`,
+    `impersonate-uid: 0` -/
+def exRaw : List (Str × Str) := [([97, 117, 116, 104, 111, 114, 105, 122, 97, 116, 105, 111, 110], [66, 101, 97, 114, 101, 114, 32, 99, 108, 105, 101, 110, 116]), ([73, 77, 80, 69, 82, 83, 79, 78, 65, 84, 69, 45, 117, 115, 101, 114], [98, 111, 98]),
+  ([105, 109, 112, 101, 114, 115, 111, 110, 97, 116, 101, 45, 71, 82, 79, 85, 80], [100, 101, 118]), ([73, 109, 112, 101, 114, 115, 111, 110, 97, 116, 101, 45, 69, 120, 116, 114, 97, 45, 97, 37, 50, 102, 98], [118]), ([105, 109, 112, 101, 114, 115, 111, 110, 97, 116, 101, 45, 117, 105, 100], [48])]
+/-- alice, [system:authenticated] -/
+def exAlice : Identity := ⟨[97, 108, 105, 99, 101], [[115, 121, 115, 116, 101, 109, 58, 97, 117, 116, 104, 101, 110, 116, 105, 99, 97, 116, 101, 100]], []⟩
+/-- bob, [dev, system:authenticated], a/b = [v] -/
+def exBob : Identity := ⟨[98, 111, 98], [[100, 101, 118], [115, 121, 115, 116, 101, 109, 58, 97, 117, 116, 104, 101, 110, 116, 105, 99, 97, 116, 101, 100]], [([97, 47, 98], [[118]])]⟩
+/-- "gateway-token" -/
+def exToken : Str := [103, 97, 116, 101, 119, 97, 121, 45, 116, 111, 107, 101, 110]
+/-- deny the check `groups/dev` -/
+def exDenyDev : ImpReq → Decision := fun r => if r = .group [100, 101, 118] then .deny else .allow
+
+/-- an allowed impersonation sent with mixed casings, the client's own `Authorization` and a stray `impersonate-uid`:
+    forwarded as bob, with the gateway's token only, without `Impersonate-Uid`, decoded exactly -/
+example : (match serve exToken exRaw (some exAlice) (fun _ => .allow) false with
+    | .forwarded recv ctx => decide (ctx = exBob ∧ values recv hAuthorization = [[66, 101, 97, 114, 101, 114, 32, 103, 97, 116, 101, 119, 97, 121, 45, 116, 111, 107, 101, 110]] ∧
+        values recv [73, 109, 112, 101, 114, 115, 111, 110, 97, 116, 101, 45, 85, 105, 100] = [] ∧ decodeIdentity recv = exBob)
+    | _ => false) = true := by decide +kernel
+
+/-- the hypotheses of `c02_identity_exact` / `c02_judge_model_exact` hold for it -/
+example : expectedFor exRaw (some exAlice) (fun _ => .allow) = .forward exBob ∧
+    extraKeysLower exBob = true ∧ valuesCarried false exBob = true := by decide +kernel
+
+/-- the same request with the group check denied: the specification says 403, the gateway answers 403 -/
+example : serve exToken exRaw (some exAlice) exDenyDev false = .forbidden ∧
+    expectedFor exRaw (some exAlice) exDenyDev = .answered 403 := by decide +kernel
+
+/-- groups without a user: 500 -/
+example : serve exToken [([105, 109, 112, 101, 114, 115, 111, 110, 97, 116, 101, 45, 103, 114, 111, 117, 112], [100, 101, 118])] (some exAlice) (fun _ => .allow) false = .internalError ∧
+    expectedFor [([105, 109, 112, 101, 114, 115, 111, 110, 97, 116, 101, 45, 103, 114, 111, 117, 112], [100, 101, 118])] (some exAlice) (fun _ => .allow) = .answered 500 := by decide +kernel
+
+/-- no impersonation requested (only a stray `IMPERSONATE-FOO` and the client's token): forwarded as alice -/
+example : (match serve exToken [([73, 77, 80, 69, 82, 83, 79, 78, 65, 84, 69, 45, 70, 79, 79], [120]), ([65, 117, 116, 104, 111, 114, 105, 122, 97, 116, 105, 111, 110], [66, 101, 97, 114, 101, 114, 32, 99, 108, 105, 101, 110, 116])] (some exAlice) (fun _ => .deny) true with
+    | .forwarded recv ctx => decide (ctx = exAlice ∧ values recv hAuthorization = [] ∧
+        values recv [73, 109, 112, 101, 114, 115, 111, 110, 97, 116, 101, 45, 70, 111, 111] = [] ∧ decodeIdentity recv = exAlice)
+    | _ => false) = true := by decide +kernel
+
+/-- the recorded limitations are real: an authenticated extra key `Scopes` is decoded as `scopes`, a group ` g` as `g` -/
+example : (match serve exToken [] (some ⟨[97, 108, 105, 99, 101], [[32, 103]], [([83, 99, 111, 112, 101, 115], [[118, 105, 101, 119]])]⟩) (fun _ => .allow) false with
+    | .forwarded recv _ => decide (decodeIdentity recv = ⟨[97, 108, 105, 99, 101], [[103]], [([115, 99, 111, 112, 101, 115], [[118, 105, 101, 119]])]⟩)
+    | _ => false) = true := by decide +kernel
+
+example : extraKeysLower ⟨[97, 108, 105, 99, 101], [], [([83, 99, 111, 112, 101, 115], [[118, 105, 101, 119]])]⟩ = false ∧
+    valuesCarried false ⟨[97, 108, 105, 99, 101], [[32, 103]], []⟩ = false := by decide +kernel
+
 end KG.Props.C02
